@@ -1,8 +1,14 @@
+/-
+  Helper lemmas for property C15 (skeleton parser).  Model: ForsysModel/Model/Skeleton.lean.
+  `KInv` — invariant of the interning table; `RInv` — invariant of the first loop of `create_lattice`
+  relative to the contours processed so far; `RInv.wf` hands the result to `ofLists_consistent` (C09).
+-/
 import ForsysModel.Model.Skeleton
 import ForsysModel.Props.C09
 import Mathlib.Data.List.Basic
 import Mathlib.Data.List.Nodup
 import Mathlib.Data.List.Range
+import Mathlib.Data.List.Pairwise
 
 namespace Forsys
 namespace Skel
@@ -141,6 +147,714 @@ theorem internContour_ids (keys : List (Px × Id)) (c : List Px) :
       rw [he, lookup_append_some (internPx_lookup keys p)]
       rfl
     · exact ih _
+
+/-! ### mesh-edge de-duplication -/
+
+def EPw (ea : List (Id × Id)) : Prop := ea.Pairwise fun a b => a ≠ b ∧ a ≠ (b.2, b.1)
+
+theorem addEdge_cases (ea : List (Id × Id)) (ab : Id × Id) :
+    (addEdge ea ab = ea ∧ (ab ∈ ea ∨ (ab.2, ab.1) ∈ ea)) ∨
+    (addEdge ea ab = ea ++ [ab] ∧ ab ∉ ea ∧ (ab.2, ab.1) ∉ ea) := by
+  unfold addEdge
+  split
+  · rename_i h
+    left
+    simpa using h
+  · rename_i h
+    right
+    simpa using h
+
+theorem addEdge_pw {ea : List (Id × Id)} (h : EPw ea) (ab : Id × Id) : EPw (addEdge ea ab) := by
+  rcases addEdge_cases ea ab with ⟨e, _⟩ | ⟨e, h1, h2⟩
+  · rw [e]; exact h
+  · rw [e]
+    unfold EPw
+    rw [List.pairwise_append]
+    refine ⟨h, by simp, ?_⟩
+    intro a ha b hb
+    simp at hb
+    subst hb
+    constructor
+    · rintro rfl; exact h1 ha
+    · rintro rfl; exact h2 ha
+
+theorem addEdge_mono {ea : List (Id × Id)} (ab x : Id × Id) (h : x ∈ ea) : x ∈ addEdge ea ab := by
+  rcases addEdge_cases ea ab with ⟨e, _⟩ | ⟨e, _⟩ <;> rw [e] <;> simp [h]
+
+theorem addEdge_cover (ea : List (Id × Id)) (ab : Id × Id) :
+    ab ∈ addEdge ea ab ∨ (ab.2, ab.1) ∈ addEdge ea ab := by
+  rcases addEdge_cases ea ab with ⟨e, h⟩ | ⟨e, _⟩ <;> rw [e]
+  · exact h
+  · simp
+
+theorem addEdge_sound {ea : List (Id × Id)} {ab x : Id × Id} (h : x ∈ addEdge ea ab) : x ∈ ea ∨ x = ab := by
+  rcases addEdge_cases ea ab with ⟨e, _⟩ | ⟨e, _⟩ <;> rw [e] at h
+  · exact Or.inl h
+  · simpa using h
+
+theorem foldAdd_pw {ea : List (Id × Id)} (h : EPw ea) (L : List (Id × Id)) : EPw (L.foldl addEdge ea) := by
+  induction L generalizing ea with
+  | nil => exact h
+  | cons a L ih => exact ih (addEdge_pw h a)
+
+theorem foldAdd_mono {ea : List (Id × Id)} (L : List (Id × Id)) (x : Id × Id) (h : x ∈ ea) :
+    x ∈ L.foldl addEdge ea := by
+  induction L generalizing ea with
+  | nil => exact h
+  | cons a L ih => exact ih (addEdge_mono a x h)
+
+theorem foldAdd_cover (ea : List (Id × Id)) (L : List (Id × Id)) :
+    ∀ ab ∈ L, ab ∈ L.foldl addEdge ea ∨ (ab.2, ab.1) ∈ L.foldl addEdge ea := by
+  induction L generalizing ea with
+  | nil => simp
+  | cons a L ih =>
+    intro ab hab
+    rcases List.mem_cons.mp hab with rfl | hab
+    · rcases addEdge_cover ea ab with h | h
+      · exact Or.inl (foldAdd_mono L _ h)
+      · exact Or.inr (foldAdd_mono L _ h)
+    · exact ih _ ab hab
+
+theorem foldAdd_sound {ea : List (Id × Id)} (L : List (Id × Id)) {x : Id × Id}
+    (h : x ∈ L.foldl addEdge ea) : x ∈ ea ∨ x ∈ L := by
+  induction L generalizing ea with
+  | nil => exact Or.inl h
+  | cons a L ih =>
+    rcases ih h with h | h
+    · rcases addEdge_sound h with h | h
+      · exact Or.inl h
+      · exact Or.inr (by simp [h])
+    · exact Or.inr (List.mem_cons_of_mem _ h)
+
+/-- the invariant of the first loop, relative to the contours processed so far -/
+structure RInv (cs : List (List Px)) (st : Raw) : Prop where
+  kinv : KInv st.keys
+  complete : ∀ p, p ∈ st.keys.map (·.1) ↔ ∃ c ∈ cs, p ∈ c
+  cells : st.cells = cs.map fun c => c.map fun p => (lookup p st.keys).getD 0
+  epw : EPw st.edgesAdded
+  cover : ∀ c ∈ st.cells, ∀ ab ∈ cyclicPairs c, ab ∈ st.edgesAdded ∨ (ab.2, ab.1) ∈ st.edgesAdded
+  sound : ∀ ab ∈ st.edgesAdded, ∃ c ∈ st.cells, ab ∈ cyclicPairs c
+
+theorem RInv.nil : RInv [] ⟨[], [], []⟩ :=
+  ⟨KInv.nil, by simp, rfl, List.Pairwise.nil, by simp, by simp⟩
+
+theorem RInv.step {cs : List (List Px)} {st : Raw} (h : RInv cs st) (c : List Px) :
+    RInv (cs ++ [c]) (stepContour st c) := by
+  obtain ⟨ext, hext⟩ := internContour_ext st.keys c
+  constructor
+  · exact internContour_inv h.kinv c
+  · intro p
+    simp only [stepContour]
+    rw [internContour_keys_fst, h.complete]
+    simp only [List.mem_append, List.mem_singleton]
+    constructor
+    · rintro (⟨d, hd, hp⟩ | hp)
+      · exact ⟨d, Or.inl hd, hp⟩
+      · exact ⟨c, Or.inr rfl, hp⟩
+    · rintro ⟨d, hd | rfl, hp⟩
+      · exact Or.inl ⟨d, hd, hp⟩
+      · exact Or.inr hp
+  · simp only [stepContour, List.map_append, List.map_cons, List.map_nil]
+    rw [← internContour_ids, h.cells]
+    congr 1
+    apply List.map_congr_left
+    intro d hd
+    apply List.map_congr_left
+    intro p hp
+    have : p ∈ st.keys.map (·.1) := (h.complete p).mpr ⟨d, hd, hp⟩
+    obtain ⟨k, hk⟩ := lookup_isSome_of_mem this
+    rw [hext, lookup_append_some hk, hk]
+  · exact foldAdd_pw h.epw _
+  · intro d hd ab hab
+    simp only [stepContour, List.mem_append, List.mem_singleton] at hd
+    simp only [stepContour]
+    rcases hd with hd | rfl
+    · rcases h.cover d hd ab hab with h1 | h1
+      · exact Or.inl (foldAdd_mono _ _ h1)
+      · exact Or.inr (foldAdd_mono _ _ h1)
+    · exact foldAdd_cover _ _ ab hab
+  · intro ab hab
+    simp only [stepContour] at hab ⊢
+    rcases foldAdd_sound _ hab with h1 | h1
+    · obtain ⟨d, hd, hh⟩ := h.sound ab h1
+      exact ⟨d, by simp [hd], hh⟩
+    · exact ⟨_, by simp, h1⟩
+
+theorem rawOf_snoc (cs : List (List Px)) (c : List Px) : rawOf (cs ++ [c]) = stepContour (rawOf cs) c := by
+  simp [rawOf, List.foldl_append]
+
+theorem rawOf_inv (cs : List (List Px)) : RInv cs (rawOf cs) := by
+  induction cs using List.reverseRecOn with
+  | nil => exact RInv.nil
+  | append_singleton cs c ih => rw [rawOf_snoc]; exact ih.step c
+
+
+/-! ### well-formedness of the parser input -/
+
+theorem cyclicPairs_ne {α : Type} {c : List α} (hn : c.Nodup) (hl : 2 ≤ c.length) {ab : α × α}
+    (h : ab ∈ cyclicPairs c) : ab.1 ≠ ab.2 := by
+  cases c with
+  | nil => simp at hl
+  | cons a l =>
+    simp only [cyclicPairs] at h
+    obtain ⟨i, hi, rfl⟩ := List.mem_iff_getElem.mp h
+    simp only [List.length_zip, List.length_cons, List.length_append, List.length_nil] at hi
+    simp only [List.length_cons] at hl
+    rw [List.getElem_zip]
+    simp only
+    intro heq
+    by_cases hlt : i < l.length
+    · rw [List.getElem_append_left hlt] at heq
+      have h2 : l[i] = (a :: l)[i + 1]'(by simp only [List.length_cons]; omega) := by simp
+      rw [h2] at heq
+      have := (hn.getElem_inj_iff).mp heq
+      omega
+    · have hi' : i = l.length := by omega
+      subst hi'
+      rw [List.getElem_append_right (le_refl _)] at heq
+      simp only [Nat.sub_self, List.getElem_cons_zero] at heq
+      have h2 : a = (a :: l)[0] := by simp
+      have heq' : (a :: l)[l.length] = (a :: l)[0] := by rw [heq]; simp
+      have := (hn.getElem_inj_iff).mp heq'
+      omega
+
+theorem enumFrom_keys {α : Type} (n : Nat) (l : List α) :
+    (enumFrom n l).map (·.1) = (List.range' n l.length).map (fun i : Nat => (i : Int)) := by
+  induction l generalizing n with
+  | nil => simp [enumFrom]
+  | cons a l ih => simp [enumFrom, List.range'_succ, ih]
+
+theorem enumFrom_keys_nodup {α : Type} (n : Nat) (l : List α) : ((enumFrom n l).map (·.1)).Nodup := by
+  rw [enumFrom_keys]
+  refine List.Nodup.map ?_ (List.nodup_range' (step := 1) (by omega))
+  intro a b h
+  exact Int.ofNat_inj.mp h
+
+theorem enumFrom_mem {α : Type} {n : Nat} {l : List α} {p : Id × α} (h : p ∈ enumFrom n l) : p.2 ∈ l := by
+  induction l generalizing n with
+  | nil => simp [enumFrom] at h
+  | cons a l ih =>
+    simp only [enumFrom, List.mem_cons] at h
+    rcases h with rfl | h
+    · simp
+    · exact List.mem_cons_of_mem _ (ih h)
+
+theorem mem_enumFrom {α : Type} (n : Nat) {l : List α} {a : α} (h : a ∈ l) : ∃ k, (k, a) ∈ enumFrom n l := by
+  induction l generalizing n with
+  | nil => simp at h
+  | cons b l ih =>
+    rcases List.mem_cons.mp h with rfl | h
+    · exact ⟨n, by simp [enumFrom]⟩
+    · obtain ⟨k, hk⟩ := ih (n + 1) h
+      exact ⟨k, by simp [enumFrom, hk]⟩
+
+theorem castRange (n : Nat) :
+    (List.range n).map (fun i => (i : Int)) = (List.range n).map (fun i : Nat => (i : Int)) := by
+  simp [← List.map_eq_flatMap]
+
+theorem KInv.snd_nodup {keys : List (Px × Id)} (h : KInv keys) : (keys.map (·.2)).Nodup := by
+  rw [h.ids, castRange]
+  refine List.Nodup.map ?_ List.nodup_range
+  intro a b h
+  exact Int.ofNat_inj.mp h
+
+theorem KInv.inj {keys : List (Px × Id)} (h : KInv keys) :
+    ∀ a ∈ keys, ∀ b ∈ keys, (a.1 = b.1 ↔ a.2 = b.2) := by
+  intro a ha b hb
+  constructor
+  · intro e
+    rw [List.inj_on_of_nodup_map h.nd ha hb e]
+  · intro e
+    rw [List.inj_on_of_nodup_map h.snd_nodup ha hb e]
+
+/-- the contours the digital-topology argument (not proved: OpenCV's border following) delivers for a clean
+    skeleton: every contour is a cycle of at least two distinct pixels -/
+def GoodContours (cs : List (List Px)) : Prop := ∀ c ∈ cs, c.Nodup ∧ 2 ≤ c.length
+
+theorem RInv.cell_facts {cs : List (List Px)} {st : Raw} (h : RInv cs st) (hg : GoodContours cs) :
+    ∀ d ∈ st.cells, d.Nodup ∧ 2 ≤ d.length ∧ ∀ v ∈ d, v ∈ st.keys.map (·.2) := by
+  intro d hd
+  rw [h.cells] at hd
+  obtain ⟨c, hc, rfl⟩ := List.mem_map.mp hd
+  obtain ⟨cnd, clen⟩ := hg c hc
+  have key : ∀ p ∈ c, ∃ k, lookup p st.keys = some k ∧ (p, k) ∈ st.keys := by
+    intro p hp
+    obtain ⟨k, hk⟩ := lookup_isSome_of_mem ((h.complete p).mpr ⟨c, hc, hp⟩)
+    exact ⟨k, hk, lookup_some_mem hk⟩
+  refine ⟨?_, by simpa using clen, ?_⟩
+  · apply List.Nodup.map_on _ cnd
+    intro p hp q hq e
+    obtain ⟨k, hk, mk⟩ := key p hp
+    obtain ⟨k', hk', mk'⟩ := key q hq
+    rw [hk, hk'] at e
+    simp only [Option.getD_some] at e
+    subst e
+    exact (h.kinv.inj _ mk _ mk').mpr rfl
+  · intro v hv
+    obtain ⟨p, hp, rfl⟩ := List.mem_map.mp hv
+    obtain ⟨k, hk, mk⟩ := key p hp
+    rw [hk]
+    exact List.mem_map.mpr ⟨_, mk, rfl⟩
+
+theorem RInv.wf {cs : List (List Px)} {st : Raw} (h : RInv cs st) (hg : GoodContours cs) :
+    WFInput (rawVertices st) (rawEdges st) (rawCells st) := by
+  have vk : (rawVertices st).map (·.1) = st.keys.map (·.2) := by
+    simp [rawVertices, List.map_map, Function.comp_def]
+  constructor
+  · rw [vk]; exact h.kinv.snd_nodup
+  · have : (rawEdges st).map (·.1) = (enumFrom 0 st.edgesAdded).map (·.1) := by
+      simp [rawEdges]
+    rw [this]; exact enumFrom_keys_nodup _ _
+  · exact enumFrom_keys_nodup _ _
+  · intro e he
+    rw [vk]
+    simp only [rawEdges] at he
+    obtain ⟨p, hp, rfl⟩ := List.mem_map.mp he
+    obtain ⟨d, hd, hab⟩ := h.sound _ (enumFrom_mem hp)
+    obtain ⟨dn, dl, dv⟩ := h.cell_facts hg d hd
+    obtain ⟨m1, m2⟩ := Mesh.mem_cyclicPairs hab
+    exact ⟨cyclicPairs_ne dn dl hab, dv _ m1, dv _ m2⟩
+  · intro c hc
+    rw [vk]
+    obtain ⟨dn, _, dv⟩ := h.cell_facts hg c.2 (enumFrom_mem hc)
+    exact ⟨dn, dv⟩
+  · intro c hc ab hab
+    have hd : c.2 ∈ st.cells := enumFrom_mem hc
+    rcases h.cover c.2 hd ab hab with h1 | h1
+    · obtain ⟨k, hk⟩ := mem_enumFrom 0 h1
+      exact ⟨(k, ab.1, ab.2), List.mem_map.mpr ⟨_, hk, rfl⟩, Or.inl ⟨rfl, rfl⟩⟩
+    · obtain ⟨k, hk⟩ := mem_enumFrom 0 h1
+      exact ⟨(k, ab.2, ab.1), List.mem_map.mpr ⟨_, hk, rfl⟩, Or.inr ⟨rfl, rfl⟩⟩
+
+theorem precheck_good' (cs : List (List Px)) (h : GoodContours cs) : precheck cs = none := by
+  induction cs with
+  | nil => rfl
+  | cons c cs ih =>
+    obtain ⟨cn, cl⟩ := h c (by simp)
+    simp only [precheck]
+    rw [if_neg (by omega), if_neg]
+    · exact ih (fun d hd => h d (List.mem_cons_of_mem _ hd))
+    · simp only [List.any_eq_true, beq_iff_eq, not_exists, not_and]
+      intro pq hpq
+      exact cyclicPairs_ne cn cl hpq
+
+theorem mirror_good' (cs : List (List Px)) (h : GoodContours cs) : GoodContours (mirror cs) := by
+  intro d hd
+  simp only [mirror] at hd
+  obtain ⟨c, hc, rfl⟩ := List.mem_map.mp hd
+  obtain ⟨cn, cl⟩ := h c hc
+  refine ⟨?_, by simpa using cl⟩
+  apply cn.map
+  intro p q e
+  simp only [Prod.mk.injEq] at e
+  ext
+  · exact e.1
+  · have := e.2; omega
+
+/-! first-occurrence order -/
+
+theorem internPx_fst (keys : List (Px × Id)) (p : Px) :
+    (internPx keys p).2.map (·.1) = keys.map (·.1) ++ (if p ∈ keys.map (·.1) then [] else [p]) := by
+  unfold internPx
+  split
+  · rename_i k hk
+    have : p ∈ keys.map (·.1) := List.mem_map.mpr ⟨_, lookup_some_mem hk, rfl⟩
+    simp [this]
+  · rename_i hn
+    have := lookup_eq_none.mp hn
+    simp [this]
+
+theorem internContour_fst (keys : List (Px × Id)) (c : List Px) :
+    (internContour keys c).2.map (·.1) = keys.map (·.1) ++ (c.removeAll (keys.map (·.1))).eraseDups := by
+  induction c generalizing keys with
+  | nil => simp [internContour, List.removeAll]
+  | cons p c ih =>
+    simp only [internContour]
+    rw [ih, internPx_fst]
+    by_cases hp : p ∈ keys.map (·.1)
+    · rw [if_pos hp, List.append_nil]
+      congr 2
+      simp only [List.removeAll, List.filter_cons]
+      simp [hp]
+    · rw [if_neg hp, List.append_assoc]
+      congr 1
+      have e1 : (p :: c).removeAll (keys.map (·.1)) = p :: c.removeAll (keys.map (·.1)) := by
+        simp only [List.removeAll, List.filter_cons]
+        simp [hp]
+      rw [e1, List.eraseDups_cons]
+      simp only [List.singleton_append, List.cons.injEq, true_and]
+      congr 1
+      simp only [List.removeAll, List.filter_filter]
+      apply List.filter_congr
+      intro x _
+      rw [Bool.eq_iff_iff]
+      simp [or_comm]
+
+theorem rawOf_fst (cs : List (List Px)) : (rawOf cs).keys.map (·.1) = cs.flatten.eraseDups := by
+  induction cs using List.reverseRecOn with
+  | nil => rfl
+  | append_singleton cs c ih =>
+    rw [rawOf_snoc]
+    simp only [stepContour]
+    rw [internContour_fst, ih, List.flatten_append, List.eraseDups_append]
+    simp only [List.flatten_cons, List.flatten_nil, List.append_nil]
+    congr 2
+    simp only [List.removeAll]
+    apply List.filter_congr
+    intro x _
+    simp
+
+/-! ### the clean-up stages: the keys of the cell dict -/
+
+theorem alGet?_filter_self {β : Type} (k : Id) (l : List (Id × β)) :
+    alGet? k (l.filter fun p => p.1 != k) = none := by
+  induction l with
+  | nil => rfl
+  | cons a l ih =>
+    obtain ⟨k', v⟩ := a
+    simp only [List.filter_cons]
+    by_cases h : k' = k
+    · simp [h, ih]
+    · have : (k' != k) = true := by simpa using h
+      simp only [this, if_true, alGet?]
+      rw [if_neg (fun e => h e.symm)]
+      exact ih
+
+
+/-- the keys of the cell dict -/
+def ck (m : Mesh) : List Id := m.cells.map (·.1)
+
+theorem ck_updVertex (m : Mesh) (k : Id) (f : Vertex → Vertex) : ck (m.updVertex k f) = ck m := rfl
+theorem ck_updEdge (m : Mesh) (k : Id) (f : SEdge → SEdge) : ck (m.updEdge k f) = ck m := rfl
+theorem ck_mkVertex (m : Mesh) (k : Id) (x y : Rat) : ck (m.mkVertex k x y) = ck m := rfl
+
+theorem ck_updCell (m : Mesh) (k : Id) (f : Cell → Cell) : ck (m.updCell k f) = ck m := by
+  simp only [ck, Mesh.updCell, List.map_map]
+  apply List.map_congr_left
+  intro p _
+  obtain ⟨k', c⟩ := p
+  simp only [Function.comp]
+  split <;> rfl
+
+theorem ck_delEdge (m : Mesh) (k : Id) : ck (m.delEdge k) = ck m := by
+  unfold Mesh.delEdge
+  split <;> rfl
+
+theorem ck_edgeReplaceVertex (m : Mesh) (a b c : Id) : ck (m.edgeReplaceVertex a b c) = ck m := by
+  unfold Mesh.edgeReplaceVertex
+  split <;> rfl
+
+theorem ck_cellReplace {m m' : Mesh} {cid a b : Id} (h : cellReplace m cid a b = .ok m') : ck m' = ck m := by
+  unfold cellReplace at h
+  split at h
+  · cases h
+  · split at h
+    · cases h
+    · split at h
+      · cases h; exact ck_updCell _ _ _
+      · cases h; rw [ck_updVertex, ck_updCell]
+
+theorem ck_edgeReplace {m m' : Mesh} {eid a b : Id} (h : edgeReplace m eid a b = .ok m') : ck m' = ck m := by
+  unfold edgeReplace at h
+  split at h
+  · cases h
+  · simp only at h
+    split at h <;> split at h <;> first | (cases h; exact ck_edgeReplaceVertex _ _ _ _) | cases h
+
+theorem ck_St_delEdge {st st' : St} {k : Id} (h : st.delEdge k = .ok st') : ck st'.mesh = ck st.mesh := by
+  unfold St.delEdge at h
+  split at h
+  · cases h
+  · split at h
+    · cases h; rfl
+    · cases h; exact ck_delEdge _ _
+
+theorem ck_release (st : St) : ck st.release.mesh = ck st.mesh := by
+  unfold St.release
+  split <;> rfl
+
+theorem ck_liveDel {fuel : Nat} {st st' : St} {v : Id} {i : Nat} {rb : Bool}
+    (h : liveDel fuel st v i rb = .ok st') : ck st'.mesh = ck st.mesh := by
+  induction fuel generalizing st i rb with
+  | zero => simp only [liveDel] at h; cases h; rfl
+  | succ n ih =>
+    simp only [liveDel] at h
+    split at h
+    · cases h; rfl
+    · split at h
+      · cases h
+      · rename_i st2 hd
+        rw [ih h, ck_St_delEdge hd]
+        split
+        · exact ck_release _
+        · rfl
+
+/-- an invariant of the accumulator is kept along `foldE` -/
+theorem foldE_inv {α β : Type} {f : β → α → Except Err β} (P : β → Prop)
+    (hf : ∀ b a b', f b a = .ok b' → P b → P b') {b b' : β} {l : List α}
+    (h : foldE f b l = .ok b') (hb : P b) : P b' := by
+  induction l generalizing b with
+  | nil => simp only [foldE] at h; cases h; exact hb
+  | cons a l ih =>
+    simp only [foldE] at h
+    split at h
+    · cases h
+    · rename_i b1 h1
+      exact ih h (hf _ _ _ h1 hb)
+
+
+theorem ck_foldE_cellReplace {m m' : Mesh} {a b : Id} {l : List Id}
+    (h : foldE (fun m c => cellReplace m c a b) m l = .ok m') : ck m' = ck m :=
+  foldE_inv (fun x => ck x = ck m) (fun _ _ _ hb hP => (ck_cellReplace hb).trans hP) h rfl
+
+theorem ck_triStep {bigs : List (List Id)} {inner : List (Id × Id)} {sv sv' : St × List (Id × Id)} {index : Nat}
+    (h : triStep bigs inner sv index = .ok sv') : ck sv'.1.mesh = ck sv.1.mesh := by
+  unfold triStep at h
+  simp only at h
+  split at h
+  · cases h; rfl
+  split at h
+  · cases h; rfl
+  split at h
+  · cases h
+  split at h
+  · cases h
+  split at h
+  · cases h
+  split at h
+  · cases h
+  rename_i hc _ st2 hl
+  cases h
+  simp only
+  rw [ck_liveDel hl]
+  simp only
+  split at hc
+  · cases hc; rfl
+  · cases hc
+  · exact ck_foldE_cellReplace hc
+
+theorem ck_triangles {st st' : St} {bigs : List (List Id)} (h : triangles st bigs = .ok st') :
+    ck st'.mesh = ck st.mesh := by
+  unfold triangles at h
+  simp only at h
+  split at h
+  · cases h
+  · rename_i sv hf
+    cases h
+    exact foldE_inv (fun x : St × List (Id × Id) => ck x.1.mesh = ck st.mesh)
+      (fun _ _ _ hb hP => (ck_triStep hb).trans hP) hf rfl
+
+theorem ck_t3Vertex {art : List Id} {newId : Id} {st st' : St} {v : Id}
+    (h : t3Vertex art newId st v = .ok st') : ck st'.mesh = ck st.mesh := by
+  unfold t3Vertex at h
+  split at h
+  · cases h
+  split at h
+  · cases h
+  split at h
+  · cases h
+  split at h
+  · cases h
+  split at h
+  · cases h
+  rename_i st1 h1 _ m1 h2 _ m2 h3
+  cases h
+  simp only
+  have e1 : ck st1.mesh = ck st.mesh :=
+    foldE_inv (fun x : St => ck x.mesh = ck st.mesh) (fun _ _ _ hb hP => (ck_St_delEdge hb).trans hP) h1 rfl
+  have e2 : ck m1 = ck st1.mesh :=
+    foldE_inv (fun x : Mesh => ck x = ck st1.mesh) (fun _ _ _ hb hP => (ck_edgeReplace hb).trans hP) h2 rfl
+  have e3 : ck m2 = ck m1 := ck_foldE_cellReplace h3
+  rw [e3, e2, e1]
+
+theorem ck_t3 {st st' : St} {art : List Id} (h : t3 st art = .ok st') : ck st'.mesh = ck st.mesh := by
+  unfold t3 at h
+  split at h
+  · cases h
+  simp only at h
+  split at h
+  · cases h
+  rename_i st1 h1
+  have e1 : ck st1.mesh = ck st.mesh :=
+    foldE_inv (fun x : St => ck x.mesh = ck st.mesh) (fun _ _ _ hb hP => (ck_t3Vertex hb).trans hP) h1
+      (ck_mkVertex _ _ _ _)
+  refine foldE_inv (fun x : St => ck x.mesh = ck st.mesh) ?_ h e1
+  intro b a b' hb hP
+  split at hb
+  · cases hb
+  · split at hb <;> (cases hb; exact hP)
+
+theorem ck_isolatedStep {acc acc' : St × Bool × List Id} {c : Id × Cell}
+    (h : isolatedStep acc c = .ok acc') : ck acc'.1.mesh = ck acc.1.mesh := by
+  unfold isolatedStep at h
+  simp only at h
+  split at h
+  · split at h
+    · cases h
+    · rename_i a hf
+      cases h
+      simp only
+      refine foldE_inv (fun x : St × Bool => ck x.1.mesh = ck acc.1.mesh) ?_ hf rfl
+      intro b v b' hb hP
+      split at hb
+      · cases hb
+      · rename_i st2 hl
+        cases hb
+        simp only
+        rw [← hP, ← ck_liveDel hl]
+        split <;> rfl
+  · cases h; rfl
+
+theorem alGet?_none_keys {β : Type} {k : Id} {l : List (Id × β)} (h : alGet? k l = none) :
+    ∀ p ∈ l, p.1 ≠ k := by
+  induction l with
+  | nil => simp
+  | cons a l ih =>
+    obtain ⟨k', v⟩ := a
+    simp only [alGet?] at h
+    split at h
+    · cases h
+    · rename_i hne
+      intro p hp
+      rcases List.mem_cons.mp hp with rfl | hp
+      · exact fun e => hne e.symm
+      · exact ih h p hp
+
+theorem cells_foldl_updVertex (l : List Id) (g : Id → Vertex → Vertex) (m : Mesh) :
+    (l.foldl (fun m v => m.updVertex v (g v)) m).cells = m.cells := by
+  induction l generalizing m with
+  | nil => rfl
+  | cons a l ih => simp only [List.foldl_cons]; rw [ih]; rfl
+
+theorem ck_delCell (m : Mesh) (k : Id) : ck (m.delCell k) = (ck m).filter (fun x => x != k) := by
+  unfold Mesh.delCell
+  split
+  · rename_i hn
+    symm
+    rw [List.filter_eq_self]
+    intro x hx
+    obtain ⟨p, hp, rfl⟩ := List.mem_map.mp hx
+    simpa using alGet?_none_keys hn p hp
+  · rename_i c _
+    simp only [ck]
+    rw [cells_foldl_updVertex c.verts (fun _ vx => { vx with ownCells := vx.ownCells.erase k }) m,
+      List.filter_map]
+    rfl
+
+theorem ck_foldl_delCell (iso : List Id) (m : Mesh) :
+    ck (iso.foldl (fun m c => m.delCell c) m) = (ck m).filter (fun k => !iso.contains k) := by
+  induction iso generalizing m with
+  | nil => simp
+  | cons a r ih =>
+    simp only [List.foldl_cons]
+    rw [ih, ck_delCell, List.filter_filter]
+    apply List.filter_congr
+    intro x _
+    rw [Bool.eq_iff_iff]
+    simp [and_comm]
+
+theorem ck_finalMesh (st : St) : ck (finalMesh st) = ck st.mesh := by
+  simp only [ck, finalMesh, List.map_map]
+  rfl
+
+theorem cleanup_cell_keys' (m0 : Mesh) (l : Lattice) (h : (cleanup m0).1 = .ok l) :
+    l.mesh.cells.map (·.1) = (m0.cells.map (·.1)).filter (fun k => !l.isolated.contains k) := by
+  unfold cleanup at h
+  simp only at h
+  split at h
+  · cases h
+  rename_i st1 h1
+  split at h
+  · cases h
+  rename_i groups _
+  split at h
+  · cases h
+  rename_i st2 h2
+  split at h
+  · cases h
+  rename_i st3 _ iso h3
+  cases h
+  simp only
+  have e1 : ck st1.mesh = ck m0 := ck_triangles h1
+  have e2 : ck st2.mesh = ck st1.mesh :=
+    foldE_inv (fun x : St => ck x.mesh = ck st1.mesh) (fun _ _ _ hb hP => (ck_t3 hb).trans hP) h2 rfl
+  have e3 : ck st3.mesh = ck st2.mesh :=
+    foldE_inv (fun x : St × Bool × List Id => ck x.1.mesh = ck st2.mesh)
+      (fun _ _ _ hb hP => (ck_isolatedStep hb).trans hP) h3 rfl
+  change ck (finalMesh _) = (ck m0).filter _
+  rw [ck_finalMesh]
+  simp only
+  rw [ck_foldl_delCell, ck_release, e3, e2, e1]
+
+theorem ck_mkCell (m : Mesh) (k : Id) (verts : List Id) :
+    ck (m.mkCell k verts) = (ck m).filter (fun x => x != k) ++ [k] := by
+  simp only [Mesh.mkCell, ck]
+  rw [cells_foldl_updVertex verts (fun _ vx => Mesh.addCellTo vx k) m, List.map_append, List.filter_map]
+  rfl
+
+theorem ck_foldl_mkCell (cs : List (Id × List Id)) (m : Mesh) (hnd : (cs.map (·.1)).Nodup)
+    (hd : ∀ k ∈ cs.map (·.1), k ∉ ck m) :
+    ck (cs.foldl (fun m p => m.mkCell p.1 p.2) m) = ck m ++ cs.map (·.1) := by
+  induction cs generalizing m with
+  | nil => simp
+  | cons a r ih =>
+    simp only [List.map_cons, List.nodup_cons, List.mem_cons, forall_eq_or_imp] at hnd hd
+    have e : ck (m.mkCell a.1 a.2) = ck m ++ [a.1] := by
+      rw [ck_mkCell, List.filter_eq_self.mpr]
+      intro x hx
+      have : x ≠ a.1 := fun e => hd.1 (e ▸ hx)
+      simpa using this
+    simp only [List.foldl_cons, List.map_cons]
+    rw [ih _ hnd.2, e, List.append_assoc]
+    · rfl
+    · intro k hk
+      rw [e, List.mem_append, List.mem_singleton]
+      rintro (h1 | rfl)
+      · exact hd.2 k hk h1
+      · exact hnd.1 hk
+
+theorem cells_foldl_mkVertex (vs : List (Id × Rat × Rat)) (m : Mesh) :
+    (vs.foldl (fun m p => m.mkVertex p.1 p.2.1 p.2.2) m).cells = m.cells := by
+  induction vs generalizing m with
+  | nil => rfl
+  | cons a l ih => simp only [List.foldl_cons]; rw [ih]; rfl
+
+theorem cells_foldl_mkEdge (es : List (Id × Id × Id)) (m : Mesh) :
+    (es.foldl (fun m p => m.mkEdge p.1 p.2.1 p.2.2) m).cells = m.cells := by
+  induction es generalizing m with
+  | nil => rfl
+  | cons a l ih => simp only [List.foldl_cons]; rw [ih]; rfl
+
+theorem ck_ofLists (vs : List (Id × Rat × Rat)) (es : List (Id × Id × Id)) (cs : List (Id × List Id))
+    (hnd : (cs.map (·.1)).Nodup) : ck (Mesh.ofLists vs es cs) = cs.map (·.1) := by
+  simp only [Mesh.ofLists]
+  have e0 : ck (es.foldl (fun m p => m.mkEdge p.1 p.2.1 p.2.2)
+      (vs.foldl (fun m p => m.mkVertex p.1 p.2.1 p.2.2) Mesh.empty)) = [] := by
+    simp only [ck]
+    rw [cells_foldl_mkEdge, cells_foldl_mkVertex]
+    rfl
+  rw [ck_foldl_mkCell cs _ hnd (by rw [e0]; simp), e0, List.nil_append]
+
+theorem rawMesh_cells_length (cs : List (List Px)) : (rawMesh cs).cells.length = cs.length := by
+  have h : ck (rawMesh cs) = (rawCells (rawOf cs)).map (·.1) :=
+    ck_ofLists _ _ _ (enumFrom_keys_nodup _ _)
+  have h2 := congrArg List.length h
+  simp only [ck, List.length_map, rawCells] at h2
+  rw [h2]
+  have h3 := congrArg List.length (enumFrom_keys 0 (rawOf cs).cells)
+  simp only [List.length_map, List.length_range'] at h3
+  rw [h3, (rawOf_inv cs).cells, List.length_map]
+
+theorem cells_eq_contours' (cs : List (List Px)) (l : Lattice) (h : (createLattice cs false).1 = .ok l)
+    (hi : l.isolated = []) : l.mesh.cells.length = cs.length := by
+  unfold createLattice at h
+  simp only [Bool.false_eq_true, if_false] at h
+  split at h
+  · cases h
+  · have := congrArg List.length (cleanup_cell_keys' _ l h)
+    rw [hi] at this
+    simp only [List.length_map, List.contains_nil, Bool.not_false, List.filter_true] at this
+    rw [this, rawMesh_cells_length]
 
 end Skel
 end Forsys
